@@ -35,11 +35,39 @@ def build(kind):
         from pySDC.implementations.hooks.log_solution import LogSolution
         from pySDC.implementations.hooks.log_work import LogWork
         return 2, dict(cp, hook_class=[LogSolution, LogWork]), test
+    if kind == 'etol':
+        # increment-based termination: CheckConvergence loads EstimateEmbeddedError and registers extra level status variables
+        d = dict(test, level_params=dict(dt=DT, restol=-1.0, e_tol=1e-7), step_params=dict(maxiter=12))
+        return 1, cp, d
+    if kind == 'getdef':
+        return 2, dict(cp, hook_class=[_ProbeHook]), test
     if kind == 'mlsdc':
         return 1, cp, heat
     if kind == 'pfasst':
         return 3, dict(cp, predict_type='pfasst_burnin'), heat
     raise KeyError(kind)
+
+
+class _ProbeHookBase:
+    pass
+
+
+def _make_probe():
+    from pySDC.core.hooks import Hooks
+
+    class ProbeHook(Hooks):
+        """a user hook reading an optional status variable with a fallback"""
+
+        def post_step(self, step, level_number):
+            super().post_step(step, level_number)
+            L = step.levels[level_number]
+            self.add_to_stats(process=step.status.slot, time=L.time, level=L.level_index, iter=step.status.iter, sweep=L.status.sweep,
+                              type='probe', value=L.status.get('error_embedded_estimate', L.status.residual))
+
+    return ProbeHook
+
+
+_ProbeHook = _make_probe()
 
 
 def _h(b):
